@@ -13,6 +13,7 @@ pub mod c08;
 pub mod c10;
 pub mod tunnelreq;
 pub mod c11;
+pub mod c12;
 pub mod c13;
 pub mod c14;
 pub mod c15;
@@ -72,6 +73,13 @@ pub static PROPS: &[PropDef] = &[
         level: "exploration",
         run: c11::run,
         replay: c11::replay,
+        workers: w16,
+    },
+    PropDef {
+        id: "C12",
+        level: "exploration",
+        run: c12::run,
+        replay: c12::replay,
         workers: w16,
     },
     PropDef {
